@@ -177,7 +177,8 @@ def check_cases(cases):
         cex = None
         sig = ''
         solver_s = 0.0
-        for label, lhs, rhs in (('A', circ, ref), ('B', exp, circ)):
+        def ask(lhs, rhs):
+            nonlocal solver_s
             sol = z3.Solver()
             sol.set('timeout', SOLVER_MS)
             sol.add(defined)
@@ -185,53 +186,55 @@ def check_cases(cases):
             t1 = time.time()
             r = str(sol.check())
             solver_s += time.time() - t1
-            q[r] = q.get(r, 0) + 1
-            if r == 'unsat':
-                continue
-            if r != 'sat':
-                # second opinion: the BDD against the reference directly
-                sol2 = z3.Solver()
-                sol2.set('timeout', SOLVER_MS)
-                sol2.add(defined)
-                sol2.add(exp != ref)
-                r2 = str(sol2.check())
-                q[r2 + '(bdd-vs-ref)'] = q.get(r2 + '(bdd-vs-ref)', 0) + 1
-                if r2 == 'unsat' and label == 'A':
-                    # A is implied by (exp==ref) and B; B still has to pass
-                    continue
-                status = 'inconclusive'
-                detail = f'{label}: solver answered {r} on {s!r}'
-                break
-            m = sol.model()
+            return r, (sol.model() if r == 'sat' else None)
+
+        def values_of(m):
             values = {}
             for (nm, pr) in sem.free_vars(tree):
                 d = table[nm]
                 a = {b: z3.is_true(m.eval(bits(b), model_completion=True))
                      for b in link.bits_of(nm, d, pr)}
                 values[nm + ("'" if pr else '')] = link.bits_to_value(nm, d, a, pr)
-            if label == 'A':
-                bad, why = _replay_values(ctx, u, tree, values)
-                if bad:
-                    status = 'violation'
-                    sig = _signature('semantics', tree, table)
-                    detail = f'{s!r} with {case["decl"]} at {values}: {why}'
-                    cex = dict(case=case, kind='semantics', values=values)
-                else:
-                    # circuit differs from reference but the BDD agrees with Python: look at B
-                    status = 'inconclusive'
-                    detail = f'A: counterexample {values} did not reproduce through ctx.let ({why}) on {s!r}'
-                break
-            else:
-                # BDD differs from circuit: evaluate both concretely
+            return values
+        # A: circuit == reference, B: BDD == circuit; E (only if needed): BDD == reference.
+        # Any two of the three equalities imply the third.
+        rA, mA = ask(circ, ref)
+        q[rA] = q.get(rA, 0) + 1
+        rB, mB = ask(exp, circ)
+        q[rB] = q.get(rB, 0) + 1
+        rE, mE = None, None
+        if 'sat' not in (rA, rB) and (rA != 'unsat' or rB != 'unsat'):
+            rE, mE = ask(exp, ref)
+            q[rE + '(bdd-vs-ref)'] = q.get(rE + '(bdd-vs-ref)', 0) + 1
+        if rA == 'sat' or rE == 'sat':
+            values = values_of(mA if rA == 'sat' else mE)
+            bad, why = _replay_values(ctx, u, tree, values)
+            if bad:
+                status = 'violation'
+                sig = _signature('semantics', tree, table)
+                detail = f'{s!r} with {case["decl"]} at {values}: {why}'
+                cex = dict(case=case, kind='semantics', values=values)
+            elif rB == 'sat':
+                values = values_of(mB)
                 status = 'violation'
                 sig = 'bdd-differs-from-prefix-formula'
-                detail = f'BDD of {s!r} differs from its prefix formula at {values}'
+                detail = f'BDD of {s!r} differs from its prefix formula at {values} (the BDD agrees with the integer semantics there)'
                 cex = dict(case=case, kind='translator', values=values)
-                bad, why = _replay_values(ctx, u, tree, values)
-                if not bad:
-                    status = 'inconclusive'
-                    detail += ' (not reproduced against Python semantics)'
-                break
+            else:
+                status = 'inconclusive'
+                detail = f'A: counterexample {values} did not reproduce through ctx.let ({why}) on {s!r}'
+        elif rB == 'sat':
+            values = values_of(mB)
+            bad, why = _replay_values(ctx, u, tree, values)
+            status = 'violation' if bad else 'inconclusive'
+            sig = 'bdd-differs-from-prefix-formula'
+            detail = f'BDD of {s!r} differs from its prefix formula at {values}' + ('' if bad else ' (not reproduced against Python semantics)')
+            cex = dict(case=case, kind='translator', values=values)
+        else:
+            proven = [r for r in (rA, rB, rE) if r == 'unsat']
+            if len(proven) < 2:
+                status = 'inconclusive'
+                detail = f'solver answered A={rA} B={rB} E={rE} on {s!r}'
         nontrivial = not (z3.is_true(z3.simplify(ref)) or z3.is_false(z3.simplify(ref)))
         out.append(core.res(name, status, queries=q, solver_s=solver_s, detail=detail, cex=cex,
                             signature=sig, sample=sample, nontrivial=nontrivial, functions=FUNCS,
